@@ -32,6 +32,8 @@ def run(rep, idx, tier):
     rep.require("C12.3", 5)
     rep.require("C12.4", 3)
     rep.require("C12.5", 3)
+    from .c19 import shared_state
+    shared_state(rep, idx, rule="C12.5", classes=["R", "W", "RW", "RW1C", "RW1S", "_Reserved", "FieldAction"])
     from . import glue
     glue.reset_discipline(rep, "C12.5", idx, ["csr/action:RW", "csr/action:RW1C", "csr/action:RW1S"],
                           allowed_init=[(("RW", "_storage"), "init"), (("RW1C", "_storage"), "init"), (("RW1S", "_storage"), "init")])
